@@ -33,6 +33,9 @@ type SessParams struct {
 	Partial bool      `json:"partial,omitempty"`
 	// stalls: link index, direction, after n writes, duration ms
 	Stalls []StallPlan `json:"stalls,omitempty"`
+	// Window > 0: every connection has that send window (bytes outstanding before
+	// a write blocks): a writer only gets on while the peer's read loop consumes
+	Window int `json:"window,omitempty"`
 }
 
 type StallPlan struct {
@@ -100,6 +103,9 @@ func NewSessWorld(c *Ctx, p SessParams, cValve, sValve mux.Valve) *SessWorld {
 	sw.C = mk(cValve, p.Singleplex)
 	sw.S = mk(sValve, false)
 	c.Net.DefaultPartial = p.Partial
+	if p.Window > 0 {
+		c.Net.SendWindow = p.Window
+	}
 	n := p.NConn
 	if n < 1 {
 		n = 1
